@@ -93,6 +93,7 @@ structure State where
   conns : Nat → Conn := fun _ => {}
   waiting : List Waiter := []       -- arrival order (per-key FIFO = this order filtered)
   wakes : List Wake := []
+  outbox : List (Nat × Frame) := [] -- frames delivered to blocked clients during the current request (emptied by `exec`)
   log : List Access := []           -- ghost
 
 /-- upper-cased command name, computed exactly as `KS.step` does -/
@@ -202,17 +203,6 @@ def notify (st : State) (db : Nat) (k : Bytes) : State :=
   | some w => { st with waiting := st.waiting.filter (fun x => x.conn != w.conn),
                         wakes := st.wakes ++ [{ conn := w.conn, db := w.db, key := k, left := w.left }] }
 
-/-- one wake-up per pushed element while clients are waiting on the key (since 9571d7e; `notify` without a waiter does nothing) -/
-def notifyN : Nat → State → Nat → Bytes → State
-  | 0, st, _, _ => st
-  | n + 1, st, db, k => notifyN n (notify st db k) db k
-
-def doPush (q : Quirks) (st : State) (c now : Nat) (path : Path) (cmd : List Bytes) : State × Frame :=
-  let r := access q st { db := (st.conns c).db, sel := (st.conns c).db, conn := c, path := path, now := now, cmd := cmd, obs := none }
-  match r.2, cmd with
-  | .int n, _ :: k :: v :: vs => if n > 0 then (notifyN (v :: vs).length r.1 (st.conns c).db k, r.2) else r
-  | _, _ => r
-
 /-- `process_wakeups`/`wake_client`: pop on the database carried by the request; a value is delivered to the blocked client -/
 def serve (q : Quirks) (now : Nat) : State → List Wake → List (Nat × Frame) → State × List (Nat × Frame)
   | st, [], out => (st, out)
@@ -226,6 +216,23 @@ def serve (q : Quirks) (now : Nat) : State → List Wake → List (Nat × Frame)
 
 def processWakes (q : Quirks) (now : Nat) (st : State) : State × List (Nat × Frame) :=
   serve q now { st with wakes := [] } st.wakes []
+
+/-- one wake-up per pushed element while clients are waiting on the key (since 9571d7e; `notify` without a waiter does nothing) -/
+def notifyN : Nat → State → Nat → Bytes → State
+  | 0, st, _, _ => st
+  | n + 1, st, db, k => notifyN n (notify st db k) db k
+
+/-- LPUSH/RPUSH: the push, the notifications, and — since 64dea68 — the wake-ups they requested are carried out at once, at the
+    end of this very command (`process_normal_command`), before the next queued command of an EXEC or anybody else can pop -/
+def doPush (q : Quirks) (st : State) (c now : Nat) (path : Path) (cmd : List Bytes) : State × Frame :=
+  let r := access q st { db := (st.conns c).db, sel := (st.conns c).db, conn := c, path := path, now := now, cmd := cmd, obs := none }
+  match r.2, cmd with
+  | .int n, _ :: k :: v :: vs =>
+    if n > 0 then
+      let y := processWakes q now (notifyN (v :: vs).length r.1 (st.conns c).db k)
+      ({ y.1 with outbox := y.1.outbox ++ y.2 }, r.2)
+    else r
+  | _, _ => r
 
 /-! ### Dispatch (`process_normal_command`), EXEC, and a client request (`process_frame`) -/
 
@@ -281,13 +288,13 @@ def exec (w : Switches) (q : Quirks) (st : State) (now c : Nat) (r : Req) : Stat
     if !(st.conns c).inMulti then (st, ⟨some err, []⟩) else
     let x := execQueue w q c now (updConn st c fun x => { x with inMulti := false, queue := [] }) (st.conns c).queue
     let y := processWakes q now x.1
-    (y.1, ⟨some (.array x.2), y.2⟩)
+    ({ y.1 with outbox := [] }, ⟨some (.array x.2), y.1.outbox ++ y.2⟩)
   else if (st.conns c).inMulti then
     (updConn st c fun x => { x with queue := x.queue ++ [r] }, ⟨some queued, []⟩)
   else
     let x := dispatch w q st c now false r
     let y := processWakes q now x.1
-    (y.1, ⟨x.2, y.2⟩)
+    ({ y.1 with outbox := [] }, ⟨x.2, y.1.outbox ++ y.2⟩)
 
 /-- a history: requests of several connections, interleaved in any way -/
 structure Ev where
